@@ -605,6 +605,30 @@ pub fn weight_attack(
             hits.push(name);
         }
     }
+    // a derivation that treats the LARGEST member as the unit of the batch: weight 1, not bound into the weight transcript
+    {
+        let size = |i: usize| statements[i].commitments.len() * statements[i].generators.bit_length();
+        let mx = (0..k).fold(0usize, |best, i| if size(i) > size(best) { i } else { best });
+        let other = if mx == 0 { 1 } else { 0 };
+        let recipe = |ps: &[Vec<u8>]| -> Option<Vec<Scalar>> {
+            let mut wt = Transcript::new(b"Bulletproofs+ verifier weights");
+            for i in 0..k {
+                if i != mx {
+                    wt.append_u64(b"proof", final_binding(&transcripts[i], &statements[i], &ps[i])?);
+                }
+            }
+            let mut wrng = wt.build_rng().finalize(&mut StuckRng(0));
+            Some((0..k).map(|i| if i == mx { Scalar::ONE } else { nonzero(&mut wrng) }).collect())
+        };
+        let mut forged: Vec<Vec<u8>> = proofs.to_vec();
+        tweak(&mut forged[other], Scalar::ONE);
+        if let Some(w) = recipe(&forged) {
+            tweak(&mut forged[mx], -w[other]);
+            if recipe(&forged).as_ref() == Some(&w) && verify(&forged).iter().any(|r| *r) {
+                hits.push("the largest member has weight 1 and is not bound into the weight transcript".to_string());
+            }
+        }
+    }
     hits
 }
 
